@@ -1,4 +1,5 @@
 import CollectionsC.Proofs.PListIter
+import CollectionsC.Proofs.PListIterProg2
 import CollectionsC.Properties.C04PList
 /-! # C07 / C06 (pointer level) — iterator programs of CC_List do not corrupt the links and never hold a dangling node
 
@@ -17,8 +18,8 @@ represented list:
   yielded element — defect L6 — are all inside).
 `cc_list_iter_add` without a current element is outside the documented contract and is not executed (as in the harness).
 The Lean driver runs `piterStep` for the `it_*` operations (node ids, no positions), so L3 ties this model to the C code.
-The descending and the zip iterator have the one-call theorems of `C04PList` (`diter_add_links`, `zip_*_links`), not a program
-theorem.  The zip theorems are about two **distinct** lists (`Repr2`: disjoint node sets); a zip iterator over the same list is
+The descending iterator has its own program theorem (`diter_program_safe`); the zip iterator has the one-call theorems of
+`C04PList` (`zip_*_links`).  The zip theorems are about two **distinct** lists (`Repr2`: disjoint node sets); a zip iterator over the same list is
 not forbidden by the headers and corrupts memory in the library — known finding `KF-list-zip-same-list` (C06/C07), witnesses
 `corpus/{list,slist}/defect_zip_same_list_*.ops`; it is kept out of every generator stream. -/
 namespace CC.Properties.C07PList
@@ -59,6 +60,37 @@ theorem iter_program_safe_after_history (P : Spec.LSeq.Params) (t1 t2 : Triple) 
         (piterInit (prun P (C04PList.fresh t1 t2) hist m).2.1.l1) ops m').2.1 := by
   obtain ⟨c1, c2, I, _⟩ := prun_refines P hist (C04PList.fresh t1 t2) [] [] m (C04PList.fresh_inv t1 t2)
   exact (iter_program_safe ops _ _ c1 m' I.rep.r1 I.b1).1
+
+/-! ## the descending iterator -/
+
+/-- **whole programs of the descending iterator** (`cc_list_diter_next/add/remove/replace`; `pditerStep`: `next` follows `prev`,
+`add` links the new node in front of `last` — `head` when `index == 0` — and makes it `last`): after any program, any refusal
+schedule, from `cc_list_diter_init` on any represented list, the list is well-formed, mirrored, and `last`/`next` name live
+nodes of the list or are NULL -/
+theorem diter_program_safe (ops : List PIOp) (s : St) (l : Hdr) (cs : List Cell) (m : Mem) (r : Repr s.heap l cs)
+    (hb : ∀ y, y ∈ idsOf cs → y < s.fresh) :
+    WF (pditerRun s l (pditerInit l) ops m).1.heap (pditerRun s l (pditerInit l) ops m).2.1 ∧
+    bwd (pditerRun s l (pditerInit l) ops m).1.heap (pditerRun s l (pditerInit l) ops m).2.1 =
+      (fwd (pditerRun s l (pditerInit l) ops m).1.heap (pditerRun s l (pditerInit l) ops m).2.1).reverse ∧
+    ∃ cs', Repr (pditerRun s l (pditerInit l) ops m).1.heap (pditerRun s l (pditerInit l) ops m).2.1 cs' ∧
+      (∀ n, (pditerRun s l (pditerInit l) ops m).2.2.1.last = some n →
+        n ∈ idsOf cs' ∧ ((pditerRun s l (pditerInit l) ops m).1.heap n).isSome) ∧
+      (∀ n, (pditerRun s l (pditerInit l) ops m).2.2.1.next = some n →
+        n ∈ idsOf cs' ∧ ((pditerRun s l (pditerInit l) ops m).1.heap n).isSome) := by
+  obtain ⟨cs', I⟩ := pditerRun_inv ops s l (pditerInit l) m cs (pditerInit_inv r hb)
+  exact ⟨⟨cs', I.repr⟩, PList.mirror ⟨cs', I.repr⟩, cs', I.repr, I.no_dangling⟩
+
+/-- non-vacuity: descending over `[1, 5]`: yield 5, add 2 in front of it, add 3 in front of that, remove the node added last,
+yield 1 (the head), add 9 in front of the head, replace -/
+example :
+    (fwd (pditerRun (prun ⟨fun _ => true, Spec.LSeq.cmpNum⟩ (C04PList.fresh .conf .conf) [.addLast 1, .addLast 5] {}).2.1.st
+        (prun ⟨fun _ => true, Spec.LSeq.cmpNum⟩ (C04PList.fresh .conf .conf) [.addLast 1, .addLast 5] {}).2.1.l1
+        (pditerInit (prun ⟨fun _ => true, Spec.LSeq.cmpNum⟩ (C04PList.fresh .conf .conf) [.addLast 1, .addLast 5] {}).2.1.l1)
+        [.next, .add 2, .add 3, .remove, .next, .add 9, .replace 7] {}).1.heap
+      (pditerRun (prun ⟨fun _ => true, Spec.LSeq.cmpNum⟩ (C04PList.fresh .conf .conf) [.addLast 1, .addLast 5] {}).2.1.st
+        (prun ⟨fun _ => true, Spec.LSeq.cmpNum⟩ (C04PList.fresh .conf .conf) [.addLast 1, .addLast 5] {}).2.1.l1
+        (pditerInit (prun ⟨fun _ => true, Spec.LSeq.cmpNum⟩ (C04PList.fresh .conf .conf) [.addLast 1, .addLast 5] {}).2.1.l1)
+        [.next, .add 2, .add 3, .remove, .next, .add 9, .replace 7] {}).2.1) = [7, 1, 2, 5] := by decide
 
 /-! ## Non-vacuity: the L6 program (`next; add; add; add`), then a removal of the yielded element and more traversal -/
 example :
